@@ -217,7 +217,7 @@ func checkC07(p *core.Program, r *core.Report) {
 			continue
 		}
 		T := witnessCircuitType(fn)
-		if T == nil {
+		if T == nil || delegateTarget(fn) != nil {
 			continue
 		}
 		name := core.FuncName(fn)
@@ -269,8 +269,13 @@ func checkC07(p *core.Program, r *core.Report) {
 		if verify == nil && prove != nil {
 			// ---------------- prover
 			nProvers++
-			paramsT := ev.Params[1]
-			paramN := namedOf(fn.Signature.Params().At(0).Type())
+			pix := requestParamIndex(fn)
+			if pix < 0 {
+				r.Violation("O7.2", name+": parameter decoding", p.Pos(fn.Pos()), "the prover has no request-parameter argument")
+				continue
+			}
+			paramsT := ev.Params[1+pix]
+			paramN := namedOf(fn.Signature.Params().At(pix).Type())
 			wi := (*wireInfo)(nil)
 			if paramN != nil {
 				wi = unmarshalWiring(p, eng, paramN)
